@@ -79,6 +79,7 @@ pub enum CKey {
     AllowTransfer,
     AllowCreate,
     Log,
+    FailHooks,
 }
 
 /// Scripted compliance contract: answers are flags, notifications are logged.
@@ -103,7 +104,14 @@ impl MockCompliance {
     pub fn reset_log(e: &Env) {
         e.storage().instance().remove(&CKey::Log);
     }
+    /// while set, the three notification hooks fail (a compliance contract that cannot take the notification)
+    pub fn set_hooks_fail(e: &Env, fail: bool) {
+        e.storage().instance().set(&CKey::FailHooks, &fail);
+    }
     fn push(e: &Env, n: Note) {
+        if e.storage().instance().get(&CKey::FailHooks).unwrap_or(false) {
+            panic!("compliance contract cannot take the notification");
+        }
         let mut l: Vec<Note> = e.storage().instance().get(&CKey::Log).unwrap_or(Vec::new(e));
         l.push_back(n);
         e.storage().instance().set(&CKey::Log, &l);
